@@ -70,9 +70,9 @@ VARIANTS = {
     ("kmeans", "given"): ["array/numpy", "array/dask"],
     ("gmm", "drawn"): ["default/numpy", "default/dask", "trainer-random/numpy", "trainer-random/dask"],
     ("gmm", "given"): ["explicit/numpy", "explicit/dask"],
-    ("isv", "given"): ["stats", "array", "dask"],
+    ("isv", "given"): ["stats", "array", "dask", "bag"],
     ("isv", "drawn"): ["array", "dask"],
-    ("jfa", "given"): ["stats", "array", "dask"],
+    ("jfa", "given"): ["stats", "array", "dask", "bag"],
     ("jfa", "drawn"): ["array", "dask"],
     ("wccn", "given"): ["numpy", "pinv", "dask", "labels:5,7,9", "labels:10,3,-4", "labels:-1,-2,-3"],
 }
@@ -189,6 +189,9 @@ def fit(em, probs, e, c, variant, d, o, p, r):
             m = em.JFAMachine(r_U=fa["r_U"], r_V=fa["r_V"], em_iterations=fa["em_iterations"], random_state=r, **kw)
         if variant == "stats":
             m.fit(m.ubm.transform(X), y)
+        elif variant == "bag":
+            import dask.bag as db
+            m.fit(db.from_sequence(m.ubm.transform(X), npartitions=3), y)
         elif variant == "array":
             m.fit_using_array(X, y)
         else:
